@@ -9,7 +9,6 @@ Open Scope N_scope.
 Section QUERY.
 Variable pt_ok : bytes -> bool.
 Variable maxvec : N.
-Variables cap_txin cap_txout : N.
 Variable H : bytes -> bytes.
 Variable Htag : bytes -> bytes.
 Variable legacy_flags_in_index : bool.
@@ -17,7 +16,7 @@ Variable legacy_flags_in_index : bool.
 (* the three `*_encode_signing_data_to` writers, per operation *)
 Definition preimage (o : op) : M bytes :=
   match o with
-  | OLegacy idx sc ty => legacy_encode pt_ok maxvec cap_txin cap_txout idx sc ty
+  | OLegacy idx sc ty => legacy_encode pt_ok maxvec idx sc ty
   | OSegwit idx sc v ty => segwit_encode pt_ok maxvec H idx sc v ty
   | OTaproot idx pv a l ty g => a' <- lift (annex_opt a) ;; taproot_encode pt_ok maxvec H idx pv a' l ty g
   | OTapKey idx pv ty g => taproot_encode pt_ok maxvec H idx pv None None ty g
@@ -25,7 +24,7 @@ Definition preimage (o : op) : M bytes :=
   | OWitnessMut _ _ => ret []
   end.
 Definition impl_msg (t : tx) (o : op) : sres bytes := snd (preimage o (init t)).
-Definition impl_digest (t : tx) (o : op) : sres bytes := snd (query pt_ok maxvec cap_txin cap_txout H Htag o (init t)).
+Definition impl_digest (t : tx) (o : op) : sres bytes := snd (query pt_ok maxvec H Htag o (init t)).
 
 (* the specification's view of the same query. For Prevouts::One(j, o) the spent outputs are `spent` with entry j replaced,
    and the comparison is only meaningful when j is the signed input and the type has ANYONECANPAY (`comparable`). *)
